@@ -493,6 +493,48 @@ pub fn c03_run(run: &Run) {
         |i| json!({"op": "c03.prepared", "Q": qs[(i / nseq) as usize].json(), "seq": seq_of(i % nseq, base), "seed": run.seed}),
     );
     run.note("prepared_machine", json!({"Q_alphabet": nq, "P_alphabet": ps.len(), "depth": depth, "call_sequences": nq * nseq}));
+    c03_call_order(run);
+}
+/// hidden state across calls: every ordered pair of calls (entry point, P, Q) executed back to back on ONE thread,
+/// with nothing else running; the second call must return the model value whatever the first one was
+/// (a cache keyed on part of the input - e.g. x only, so that Q and -Q collide - would show here)
+pub fn c03_call_order(run: &Run) {
+    let t0 = std::time::Instant::now();
+    let c = consts();
+    let ps: Vec<Val<G1>> = [n(1), r() - n(1), c.lambda.clone(), n(2)].iter().filter_map(|d| build::<G1>(d, &Rep::Aff)).collect();
+    let qs: Vec<Val<G2>> = [n(1), r() - n(1), c.lambda.clone(), n(2)].iter().filter_map(|d| build::<G2>(d, &Rep::Aff)).collect();
+    let mut calls: Vec<(Ep, usize, usize)> = vec![];
+    for ep in Ep::ALL {
+        for i in 0..ps.len() {
+            for j in 0..qs.len() {
+                calls.push((ep, i, j));
+            }
+        }
+    }
+    let mut n_seq = 0u64;
+    'outer: for (a, first) in calls.iter().enumerate() {
+        for (b, second) in calls.iter().enumerate() {
+            let _ = first.0.call(ps[first.1].v, qs[first.2].v);
+            let res = expect_pairing(second.0, &ps[second.1], &qs[second.2]);
+            n_seq += 1;
+            if let Err(mut e) = res {
+                e.class = format!("call-order:{}", e.class);
+                e.msg = format!("after the call {}(P={}, Q={}): {}", first.0.name(), ps[first.1].json(), qs[first.2].json(), e.msg);
+                let (f, s) = (first.clone(), second.clone());
+                run.record_fail("c03.call-order", (a * calls.len() + b) as u64, e, || {
+                    json!({"op": "c03.callorder", "first": {"ep": f.0.name(), "P": ps[f.1].json(), "Q": qs[f.2].json()},
+                           "second": {"ep": s.0.name(), "P": ps[s.1].json(), "Q": qs[s.2].json()}})
+                });
+                if run.fail_count() > 20 {
+                    break 'outer;
+                }
+            }
+        }
+    }
+    run.add_counts(n_seq, n_seq * 2, n_seq);
+    run.add_driver_summary(json!({"driver": "c03.call-order", "engine": "sequential grid (one thread, nothing else running)", "calls": calls.len(),
+        "ordered_pairs_of_calls": n_seq, "wall_s": t0.elapsed().as_secs_f64()}));
+    eprintln!("[C03] c03.call-order               cases={:<10} transitions={:<11} {:.1}s", n_seq, n_seq * 2, t0.elapsed().as_secs_f64());
 }
 pub fn c03_meta(run: &Run) -> Meta {
     Meta {
@@ -740,6 +782,12 @@ pub fn replay(c: &Value) -> Result<(), Bad> {
         "c02.vectors" => c02_vectors().map(|_| ()),
         "c02.textbook" => c02_case(&gn(c, "a"), &gn(c, "b"), c["seed"].as_u64().unwrap_or(1)).map(|_| ()),
         "c03.pair" => c03_pair(&v1("P"), &v2("Q")).map(|_| ()),
+        "c03.callorder" => {
+            let f = &c["first"];
+            let s = &c["second"];
+            let _ = Ep::parse(f["ep"].as_str().unwrap()).call(Val::<G1>::from_json(&f["P"]).v, Val::<G2>::from_json(&f["Q"]).v);
+            expect_pairing(Ep::parse(s["ep"].as_str().unwrap()), &Val::<G1>::from_json(&s["P"]), &Val::<G2>::from_json(&s["Q"])).map(|_| ())
+        }
         "c03.prepared" => {
             let seed = c["seed"].as_u64().unwrap_or(1);
             let seq: Vec<usize> = c["seq"].as_array().unwrap().iter().map(|x| x.as_u64().unwrap() as usize).collect();
